@@ -100,6 +100,20 @@ def run(ctx):
         if got != w:
             ctx.violation("hash-subcommand", dict(op="hdwallet " + " ".join(rn["args"])), w, got)
     d_msg, d_tx, d_td = bytes.fromhex(want[0][2:]), t.signing_hash(), td.fields[0]
+    # the same inputs delivered on stdin in several bursts (short reads): identical results
+    def bursts(b):
+        k = max(1, len(b) // 3)
+        return [b[:k], b[k:2 * k], b[2 * k:]]
+    big = rbytes(rng, 20000)
+    sruns = [dict(args=["hash", "message", "-"], stdin_chunks=bursts(msg)), dict(args=["hash", "transaction", "-"], stdin_chunks=bursts(tx_doc.encode())),
+             dict(args=["hash", "typeddata", "-"], stdin_chunks=bursts(td_doc.encode())), dict(args=["hash", "data", "-"], stdin_chunks=bursts(msg)),
+             dict(args=["hash", "data", "-"], stdin_chunks=[big[:8192], big[8192:8200], big[8200:]]), dict(args=["hex", "encode"], stdin_chunks=bursts(msg))]
+    swant = [want[0], want[2], want[4], want[7], "0x" + pyref.keccak256(big).hex(), "0x" + msg.hex()]
+    for rn, r, w in zip(sruns, ctx.cli(sruns), swant):
+        ctx.count("stdin-in-bursts")
+        ctx.distinct(("bursts", tuple(rn["args"]), len(rn["stdin_chunks"][0])))
+        if r.cls != "ok" or r.stdout.decode().strip() != w:
+            ctx.violation("stdin-delivered-in-bursts", dict(op="hdwallet " + " ".join(rn["args"]), chunks=[len(c) for c in rn["stdin_chunks"]]), w, str(r)[:300])
 
     runs, meta = [], []
     for a in accounts:
